@@ -165,6 +165,23 @@ func drawNet(rt *rapid.T, p *Plan, prop, tier string) *Plan {
 		}
 		np.Txs = append(np.Txs, t)
 	}
+	if prop == "C07" && rapid.IntRange(0, 2).Draw(rt, "latefee") == 0 {
+		// a fee setting is raised while plain transactions that pay exactly the calculator's fee wait in the pools: with
+		// at most two transactions per block the committee's transaction (better paid per byte) goes first and the
+		// others are still pooled when the new setting takes effect
+		if np.MaxTxPB == 0 || np.MaxTxPB > 2 {
+			np.MaxTxPB = 2
+		}
+		at := max(0, np.DurationMS-rapid.IntRange(3500, 6500).Draw(rt, "latefeeat"))
+		o := Op{Kind: OpPolicy, X: 0, N: int64(rapid.IntRange(700, 2000).Draw(rt, "latefeeperbyte"))}
+		if rapid.IntRange(0, 3).Draw(rt, "latefeekind") == 3 {
+			o = Op{Kind: OpPolicy, X: 1, N: int64(rapid.IntRange(30, 59).Draw(rt, "lateexecfee"))}
+		}
+		np.Txs = append(np.Txs, NetTx{AtMS: at, Op: o, Targets: 31})
+		for i := 0; i < 5; i++ {
+			np.Txs = append(np.Txs, NetTx{AtMS: at + 1, Op: Op{Kind: OpTransferGAS, A: i, B: (i + 1) % numAccounts, N: int64(1 + i), X: 1}, Targets: 31})
+		}
+	}
 	sort.SliceStable(np.Txs, func(i, j int) bool { return np.Txs[i].AtMS < np.Txs[j].AtMS })
 	if np.Observers > 0 && rapid.IntRange(0, 2).Draw(rt, "obsrestart") == 0 {
 		np.Restart = append(np.Restart, Span{Node: np.Validators, FromMS: rapid.IntRange(2000, np.DurationMS-1000).Draw(rt, "restartat")})
